@@ -147,7 +147,7 @@ def run(ctx):
             # known: --wrap=S with no __wrap_S anywhere: GNU ld reports __wrap_S undefined, wild binds to S
             no_wrap_def = any(not any(en[0] == "D" and en[1] == 1000 + s for f in files for en in f["entries"]) and
                               any(en[0] == "U" and en[1] == s for f in files for en in f["entries"]) for s in W)
-            if no_wrap_def and v == "err:undef" and not impl[i].startswith("err"):
+            if no_wrap_def and v == "err:undef":
                 ctx.violation("wrap:missing-wrap-definition", "--wrap=S without any definition of __wrap_S: references to S stay bound to S; GNU ld redirects them and reports __wrap_S undefined",
                               {"request": reqs[i], "link_line": line, "wild": impl[i], "ld": v})
                 continue
